@@ -258,6 +258,7 @@ func c19Base(rt *rapid.T, fail func([]drv.Op, *drv.Violation)) (*drv.Env, *refde
 	o.NoFreelistSync = false
 	cfg.FixedOpts = &o
 	f := func(v *drv.Violation) {
+		drv.SetFailing()
 		log := e.Log
 		e.Cleanup()
 		fail(log, v)
